@@ -31,6 +31,7 @@ func checkC06(c *Ctx) {
 	c.Rule("R5", "removal watcher: goroutine selecting on WaitRemoved() of the picked host closes both connections and outlives neither direction")
 	c.Rule("R6", "removal notification hits the stored host")
 	c.Rule("R7", "lb.New is total over the policy enum")
+	c.Rule("R8", "candidate identity (shared with C15.R8): the healthy tiers - the candidate list - hold only the object the member map stores for an address, so the host that is picked is the one that removal notifies")
 
 	hc := p.Func("proc/tcp", "(*tcpProc).HandleConn")
 	bal := p.Named("proc/internal/lb", "Balancer")
@@ -447,6 +448,7 @@ func checkC06(c *Ctx) {
 		_ = watcher
 	}
 	checkRemovalIdentity(c, "R6")
+	checkTierIdentity(c, "R8")
 	// the snapshot given to the balancer is current only if every tier change rebuilds the cache
 	checkTierRebuild(c, "R1")
 
